@@ -241,7 +241,7 @@ package registry
 //@   ensures not-found: !ok ==> v == nil && forall(k, 0 <= k && k < len(m.vars) ==> m.vars[k].Name != name)
 
 //@ func registry.Registry.searchImport -> p, ok
-//@   props C12 C14
+//@   props C12 C13 C14
 //@   safety C19
 //@   requires forall(string(k), dom(r.imports, k) ==> r.imports[k] != nil && r.imports[k].pkg != nil)
 //@   loop 1 invariant none-visited-matches: forall(string(k), visited[k] ==> qual(r.imports[k]) != name)
